@@ -181,6 +181,10 @@ def _init_worker(libs):
     _W["tracer"] = tracer
     _W["libs"] = libs
     _W["root"] = core.scratch_dir("mpv-run-")
+    # another program of the same process uses another library: its commands (Probe) are none of the validated programs' business
+    from mpilot.program import Program
+
+    _W["other"] = Program(libraries=("vprobe",))
 
 
 def describe_error(e, table):
@@ -231,7 +235,12 @@ def run_one(job):
     out = io.StringIO()
     with contextlib.redirect_stdout(out):
         try:
-            p = Program.from_source(src, libraries=_W["libs"], working_dir=wd)
+            if jid % 5 == 2:
+                # as the command-line tool does for a bare file name: the working directory is "" and the process runs inside the model's folder
+                os.chdir(wd)
+                p = Program.from_source(src, libraries=_W["libs"], working_dir="")
+            else:
+                p = Program.from_source(src, libraries=_W["libs"], working_dir=wd)
             ev.append({"ev": "load", "ok": True, "cls": "", "mp": True, "syn": False, "at": [0, ""], "what": "", "params": []})
         except BaseException as e:
             p = None
@@ -250,6 +259,7 @@ def run_one(job):
                     ev.append({"ev": "exec_begin", "c": e["c"], "kw": e.get("kw", [])})
             res["ev"] = "ret_run"
             ev.append(res)
+    os.chdir(_W["root"])
     new = sorted(set(os.listdir(wd)) - before)
     ev.append({"ev": "files", "n": len(new), "names": new})
     shutil.rmtree(wd, ignore_errors=True)
@@ -434,6 +444,9 @@ RUNTIME_SCENARIOS = [
     ("syntax-number-newline-word", "A = EEMSRead(InFileName = in.csv, InFieldName = a, Metadata = [Year: 2020\n   Source: x])\n", {}),
     ("syntax-number-comment-word", "A = EEMSRead(InFileName = in.csv, InFieldName = a)\nF = CvtToFuzzy(InFieldName = A, TrueThreshold = 5 # was 4\n    units, FalseThreshold = 1)\n", {}),
     ("syntax-float-newline-word-in-list", "A = EEMSRead(InFileName = in.csv, InFieldName = a)\nS = WeightedSum(InFieldNames = [A, A], Weights = [0.25\n  A])\n", {}),
+    ("path-with-nul-character", "A = EEMSRead(InFileName = \"da\x00ta.csv\", InFieldName = a)\n", {}),
+    ("path-too-long", "A = EEMSRead(InFileName = %s.csv, InFieldName = a)\n" % ("d" * 5000), {}),
+    ("write-path-with-nul-character", "A = EEMSRead(InFileName = in.csv, InFieldName = a)\nW = EEMSWrite(OutFileName = \"o\x00.csv\", OutFieldNames = [A])\n", {}),
     ("ok-model", "A = EEMSRead(InFileName = in.csv, InFieldName = a)\nF = CvtToFuzzy(InFieldName = A)\nW = EEMSWrite(OutFileName = out.csv, OutFieldNames = [A, F])\n", {}),
 ]
 
